@@ -198,7 +198,9 @@ fn session(r: &mut StdRng, cat: &Arc<Cat>, log: &Arc<Mutex<Vec<Value>>>, out: &m
         m.extend_from_slice(&qtype.to_be_bytes());
         m.extend_from_slice(&[0, 1]);
         if r.gen_bool(0.2) {
-            push_additional(&mut m, &opt_rr(1232, 0, &[0], &[]));
+            // sometimes an unsupported EDNS version: the BADVERS response belongs to the error category
+            let version: u32 = if r.gen_bool(0.25) { 1 } else { 0 };
+            push_additional(&mut m, &opt_rr(1232, version << 16, &[0], &[]));
         }
         log.lock().unwrap().clear();
         let mut buf = vec![0u8; 65535];
